@@ -405,6 +405,16 @@ def harness_build(timeout=2400):
         return rc == 0 and os.path.exists(BIN), out
 
 
+class HarnessHang(Exception):
+    """the real code did not return on one case (or crashed the process): that case is a failing input"""
+
+    def __init__(self, suite, case, how):
+        Exception.__init__(self, "implementation %s on a case of suite %s" % (how, suite))
+        self.suite = suite
+        self.case = case
+        self.how = how
+
+
 def harness_run(suite, cases, timeout=1200, env=None, tag=None):
     """Run the real implementation on the cases (list of JSON values). Returns list of results."""
     ensure_dirs()
@@ -416,6 +426,12 @@ def harness_run(suite, cases, timeout=1200, env=None, tag=None):
             f.write(json.dumps(c) + "\n")
     rc, out = sh([BIN, suite, cin, cout], timeout=timeout, env=env, cwd=os.path.join(WORK, "tmp"))
     if rc != 0:
+        done = 0
+        if os.path.exists(cout):
+            done = sum(1 for l in open(cout) if l.strip())
+        if done < len(cases):
+            how = "did not terminate within %ss" % timeout if rc == 124 else "crashed the process (rc=%s)" % rc
+            raise HarnessHang(suite, cases[done], how)
         raise RuntimeError("harness %s failed rc=%s: %s" % (suite, rc, out[-3000:]))
     res = [json.loads(l) for l in open(cout) if l.strip()]
     os.remove(cin)
